@@ -15,6 +15,7 @@ from req_compile.utils import (
     merge_requirements,
     normalize_project_name,
     parse_requirement,
+    reduce_requirements,
 )
 
 
@@ -243,10 +244,15 @@ class DistributionCollection:
     ) -> Set[DependencyNode]:
         node.metadata = metadata
         add_nodes = {node}
+        # A dependency may be required both unconditionally and by one or more of
+        # the requested extras. Only one reason is stored per edge, so combine all
+        # applicable requirements on a project before recording it.
+        all_reqs: List[pkg_resources.Requirement] = []
         for extra in {None} | node.extras:
-            for req in metadata.requires(extra):
-                # This adds a placeholder entry
-                add_nodes |= self.add_dist(req.name, node, req)
+            all_reqs.extend(metadata.requires(extra))
+        for req in reduce_requirements(all_reqs):
+            # This adds a placeholder entry
+            add_nodes |= self.add_dist(req.name, node, req)
         return add_nodes
 
     def remove_dists(
